@@ -6,6 +6,7 @@ C11 — Node ids handed out are fresh, in range, and never handed out twice.
 generated `MAX_NODE_ID`.
 -/
 import AioMySensors.Lemmas.Exact
+import AioMySensors.Model.Persist
 
 namespace AioMySensors.C11
 open AioMySensors M
@@ -191,6 +192,93 @@ theorem never_handed_out_twice (st : St) (ops : List Op) :
   have h1 : st1.nodes.has id = true := PDict.has_set_self _ _ _
   have h2 := keys_monotone_history ops st1 id h1
   have h3 := nextId_fresh (stateAfter st1 ops).nodes
+  rw [e] at h3
+  rw [h3] at h2
+  exact absurd h2 (by simp)
+
+/-! ### Across sessions: entering the context again (or any `Persistence.load`) never forgets a registered id
+
+`Gateway.__aenter__` calls `Persistence.load` on every entry; `load` (`Persist.loadFile`: `Lemmas/PersistBodiesEq.load_eq`
+ties it to the code) updates the registry node by node — it only ever ADDS or REPLACES entries.  A *life* of a gateway
+object is a history of receives and sends interleaved with loads of arbitrary files; the id handed out after any life is
+still different from every id registered before it. -/
+
+theorem loadNodes_keeps (k : Int) : ∀ (kvs : List (Str × Json)) (acc r : PDict Int Node),
+    Persist.loadNodes acc kvs = .ok r → acc.has k = true → r.has k = true := by
+  intro kvs
+  induction kvs with
+  | nil => intro acc r h hk; simp only [Persist.loadNodes, Except.ok.injEq] at h; subst h; exact hk
+  | cons x xs ih =>
+    intro acc r h hk
+    obtain ⟨key, v⟩ := x
+    simp only [Persist.loadNodes] at h
+    split at h
+    · next id n _ => exact ih _ _ h (has_set_mono acc id k n hk)
+    · simp at h
+
+/-- **A successful load keeps every registered id** (whatever the file holds). -/
+theorem load_keeps_registered_ids (cur : PDict Int Node) (fs : Persist.FileState) (res : Persist.Loaded) (k : Int)
+    (h : Persist.loadFile cur fs = .ok res) (hk : cur.has k = true) : res.nodes.has k = true := by
+  simp only [Persist.loadFile] at h
+  split at h
+  · next j _ =>
+    simp only [Persist.loadInto, Persist.mapRead] at h
+    split at h
+    · next r hr =>
+      split at hr
+      · next r' hr' =>
+        simp only [Except.ok.injEq] at hr h
+        subst hr; subst h
+        cases j <;> simp only [Persist.loadRaw] at hr' <;> first
+          | exact loadNodes_keeps k _ _ _ hr' hk
+          | simp at hr'
+      · split at hr <;> simp at hr
+    · simp at h
+  · split at h
+    · simp only [Except.ok.injEq] at h; subst h; exact hk
+    · split at h <;> simp at h
+
+/-- One event in the life of a gateway object: traffic, or a load of whatever is at the path (on entering the context
+again, or called by the application).  A load that raises leaves the model's registry as it was. -/
+inductive LifeOp where
+  | gw (op : Op)
+  | load (fs : Persist.FileState)
+
+def lifeStep (st : St) : LifeOp → St
+  | .gw op => (stepOp st op).1
+  | .load fs =>
+    match Persist.loadFile st.nodes fs with
+    | .ok res => { st with nodes := res.nodes }
+    | .error _ => st
+
+def lifeAfter (st : St) (ops : List LifeOp) : St := ops.foldl lifeStep st
+
+theorem keys_monotone_life (ops : List LifeOp) (st : St) (k : Int) (h : st.nodes.has k = true) :
+    (lifeAfter st ops).nodes.has k = true := by
+  induction ops generalizing st with
+  | nil => exact h
+  | cons op ops ih =>
+    refine ih _ ?_
+    cases op with
+    | gw o =>
+      have := keys_monotone_history [o] st k h
+      simpa [lifeStep, stateAfter, run] using this
+    | load fs =>
+      simp only [lifeStep]
+      split
+      · next res hres => exact load_keeps_registered_ids st.nodes fs res k hres h
+      · exact h
+
+/-- **Never twice, over the whole life of the object** — sessions, reloads of any file (also one that lacks the id,
+was replaced, or is damaged) and traffic in any order. -/
+theorem never_handed_out_twice_life (st : St) (ops : List LifeOp) :
+    let id := nextId st.nodes
+    let st1 : St := { st with nodes := st.nodes.set id placeholderNode }
+    nextId (lifeAfter st1 ops).nodes ≠ id := by
+  intro id st1 e
+  have h1 : st1.nodes.has id = true := PDict.has_set_self _ _ _
+  have h2 := keys_monotone_life ops st1 id h1
+  have h3 := nextId_fresh (lifeAfter st1 ops).nodes
   rw [e] at h3
   rw [h3] at h2
   exact absurd h2 (by simp)
